@@ -112,7 +112,7 @@ enum Expect {
     /// empty stream: an explicit error or the digest of nothing (never a panic)
     EmptyStream { digest_allowed: bool },
     /// a non-empty range reaches past the end (or overflows u64): must be an error
-    MustErr { offender_has_greatest_start: bool },
+    MustErr { offender: &'static str },
     /// one of these digests; `err_also_ok` when an EMPTY range lies beyond the end (the text does not say whether that "reaches past the end")
     Digest { any_of: Vec<Vec<u8>>, err_also_ok: bool, proper_selection: bool },
     /// markers inside excluded regions / markers in inclusion mode: the property gives no reference; only
@@ -130,7 +130,15 @@ fn expect(c: &Case, data: &[u8]) -> Expect {
     }
     if !offenders.is_empty() {
         let max_start = c.ranges.iter().map(|r| r.0).chain(c.markers.iter().copied()).max().unwrap_or(0);
-        return Expect::MustErr { offender_has_greatest_start: offenders.iter().any(|r| r.0 >= max_start) };
+        let at_max: Vec<&(u64, u64)> = c.ranges.iter().filter(|r| r.0 == max_start).collect();
+        let offender = if !offenders.iter().any(|r| r.0 == max_start) {
+            "not-greatest-start"
+        } else if at_max.iter().all(|r| past(r)) && !c.markers.contains(&max_start) {
+            "greatest-start"
+        } else {
+            "tied-greatest-start"
+        };
+        return Expect::MustErr { offender };
     }
     let err_also_ok = c.ranges.iter().any(|(s, n)| *n == 0 && *s > l);
     if c.excl {
@@ -242,6 +250,22 @@ fn island_defect_digest(c: &Case, data: &[u8]) -> Option<Vec<u8>> {
 
 type Obs = Result<Result<Vec<u8>, String>, String>; // panic | (digest | error kind)
 
+/// Per-key limiter: the first few cases of every key are recorded as violations, all are counted.
+static SEEN: Mutex<std::collections::BTreeMap<String, u64>> = Mutex::new(std::collections::BTreeMap::new());
+const KEPT_PER_KEY: u64 = 3;
+
+fn violation(run: &Run, key: String, what: String, case: Value) {
+    let n = {
+        let mut g = SEEN.lock().unwrap_or_else(|e| e.into_inner());
+        let e = g.entry(key.clone()).or_insert(0);
+        *e += 1;
+        *e
+    };
+    if n <= KEPT_PER_KEY {
+        run.violation(key, what, case);
+    }
+}
+
 fn call_hook(c: &Case, data: &[u8], buf: usize) -> Obs {
     par::guard(|| {
         c2pa::verif_hooks::hash_stream_with_buf(c.alg, &mut Cursor::new(data), c.hash_ranges(true), c.excl, buf).map_err(|e| kit::sdk::err_kind(&e))
@@ -269,16 +293,23 @@ fn same(a: &Obs, b: &Obs) -> bool {
 }
 
 /// Execute one case with every chunk size and judge it. Returns the number of SDK calls made.
-fn judge(run: &Run, c: &Case, verbose: bool) -> u64 {
+fn judge(run: &Run, c: &Case, verbose: bool, out: &mut std::collections::BTreeMap<&'static str, u64>) -> u64 {
+    let mut acc = |k: &'static str| *out.entry(k).or_insert(0) += 1;
     let data = stream_bytes(c.l);
     let mode = if c.excl { "exclusion" } else { "inclusion" };
     let mut obs: Vec<(String, Obs)> = vec![];
     for buf in 1..=c.l.max(1) {
         obs.push((format!("buf={buf}"), call_hook(c, &data, buf)));
+        if obs.last().map(|o| o.1.is_err()).unwrap_or(false) {
+            break; // a panic is a violation already; unwinding is slow, do not repeat it for every chunk size
+        }
     }
-    obs.push(("public/descending".into(), call_public(c, &data, true)));
-    let asc = call_public(c, &data, false);
-    let n_calls = obs.len() as u64 + 1;
+    let panicked = obs.last().map(|o| o.1.is_err()).unwrap_or(false);
+    if !panicked {
+        obs.push(("public/descending".into(), call_public(c, &data, true)));
+    }
+    let asc = if panicked { obs[obs.len() - 1].1.clone() } else { call_public(c, &data, false) };
+    let n_calls = obs.len() as u64 + !panicked as u64;
     if verbose {
         for (n, o) in &obs {
             println!("  {n}: {}", show(o));
@@ -288,16 +319,16 @@ fn judge(run: &Run, c: &Case, verbose: bool) -> u64 {
     // 1. no panic
     for (n, o) in obs.iter().chain(std::iter::once(&("public/ascending".to_string(), asc.clone()))) {
         if let Err(p) = o {
-            run.outcome("panic");
+            acc("panic");
             let site = p.split(" at ").next().unwrap_or("").chars().take(60).collect::<String>();
-            run.violation(format!("panic mode={mode} markers={} msg={site}", c.markers.len().min(1)), format!("{n}: panic: {p}"), c.json());
+            violation(run, format!("panic mode={mode} markers={} msg={site}", c.markers.len().min(1)), format!("{n}: panic: {p}"), c.json());
             return n_calls;
         }
     }
     // 2. chunk-size independence (same argument order)
     if let Some((n, o)) = obs.iter().find(|(_, o)| !same(o, &obs[0].1)) {
-        run.outcome("chunk-dependent");
-        run.violation(
+        acc("chunk-dependent");
+        violation(run, 
             format!("chunk-dependent mode={mode} markers={}", c.markers.len().min(1)),
             format!("result depends on the read-chunk size: {} gives {}, {n} gives {}", obs[0].0, show(&obs[0].1), show(o)),
             c.json(),
@@ -318,29 +349,29 @@ fn judge(run: &Run, c: &Case, verbose: bool) -> u64 {
             Err(_) => continue,
         };
         match (&exp, r) {
-            (Expect::EmptyStream { .. }, Err(_)) => run.outcome("empty-stream: explicit error"),
+            (Expect::EmptyStream { .. }, Err(_)) => acc("empty-stream: explicit error"),
             (Expect::EmptyStream { digest_allowed }, Ok(d)) => {
                 if *digest_allowed && *d == sha(c.alg, b"") {
-                    run.outcome("empty-stream: digest of nothing")
+                    acc("empty-stream: digest of nothing")
                 } else {
-                    run.outcome("wrong-digest");
-                    run.violation(format!("wrong-digest empty-stream mode={mode}"), format!("{n}: empty stream gives {}", show(o)), c.json());
+                    acc("wrong-digest");
+                    violation(run, format!("wrong-digest empty-stream mode={mode}"), format!("{n}: empty stream gives {}", show(o)), c.json());
                 }
             }
-            (Expect::MustErr { .. }, Err(_)) => run.outcome("past-end: rejected"),
-            (Expect::MustErr { offender_has_greatest_start }, Ok(_)) => {
-                run.outcome("past-end-accepted");
-                run.violation(
-                    format!("past-end-accepted mode={mode} offender={}", if *offender_has_greatest_start { "greatest-start" } else { "not-greatest-start" }),
+            (Expect::MustErr { .. }, Err(_)) => acc("past-end: rejected"),
+            (Expect::MustErr { offender }, Ok(_)) => {
+                acc("past-end-accepted");
+                violation(run, 
+                    format!("past-end-accepted mode={mode} offender={offender}"),
                     format!("{n}: a range reaching past the end of the {}-byte stream is accepted: {} (ranges {:?})", c.l, show(o), c.ranges),
                     c.json(),
                 );
             }
             (Expect::Digest { any_of, .. }, Ok(d)) => {
                 if any_of.contains(d) {
-                    run.outcome("digest equals reference")
+                    acc("digest equals reference")
                 } else {
-                    run.outcome("wrong-digest");
+                    acc("wrong-digest");
                     let class = if island_defect_digest(c, &data).as_ref() == Some(d) {
                         "marker-on-one-byte-island(offset||offset)"
                     } else if !c.markers.is_empty() {
@@ -348,7 +379,7 @@ fn judge(run: &Run, c: &Case, verbose: bool) -> u64 {
                     } else {
                         "no-markers"
                     };
-                    run.violation(
+                    violation(run, 
                         format!("wrong-digest mode={mode} class={class}"),
                         format!("{n}: digest {} differs from the reference {} (L={}, ranges {:?}, markers {:?})", hex(&d[..8]), hex(&any_of[0][..8]), c.l, c.ranges, c.markers),
                         c.json(),
@@ -357,13 +388,13 @@ fn judge(run: &Run, c: &Case, verbose: bool) -> u64 {
             }
             (Expect::Digest { err_also_ok, .. }, Err(e)) => {
                 if *err_also_ok {
-                    run.outcome("empty range beyond the end: rejected")
+                    acc("empty range beyond the end: rejected")
                 } else {
-                    run.outcome("rejected-valid-input");
-                    run.violation(format!("rejected-valid-input mode={mode} err={e}"), format!("{n}: in-bounds ranges rejected with {e} (L={}, ranges {:?}, markers {:?})", c.l, c.ranges, c.markers), c.json());
+                    acc("rejected-valid-input");
+                    violation(run, format!("rejected-valid-input mode={mode} err={e}"), format!("{n}: in-bounds ranges rejected with {e} (L={}, ranges {:?}, markers {:?})", c.l, c.ranges, c.markers), c.json());
                 }
             }
-            (Expect::NoReference, _) => run.outcome("no reference (marker outside the defined domain): chunk-independent, no panic"),
+            (Expect::NoReference, _) => acc("no reference (marker outside the defined domain): chunk-independent, no panic"),
         }
     }
     n_calls
@@ -437,22 +468,29 @@ fn sweep(run: &Run, sp: &Space) {
         let marks = marker_sets(l, sp.markers.0, sp.markers.1);
         total_cases += (ms.len() * marks.len() * 2 * sp.algs.len()) as u64;
         par::for_each(&ms, |m| {
+            let mut out = std::collections::BTreeMap::new();
+            let mut n_calls = 0u64;
+            let mut n_nontrivial = 0u64;
             let ranges: Vec<(u64, u64)> = m.iter().map(|i| pairs[*i as usize]).collect();
             for mk in &marks {
                 for excl in [true, false] {
                     for alg in sp.algs {
                         let c = Case { l, ranges: ranges.clone(), markers: mk.clone(), excl, alg, none_when_empty: true };
-                        let n = judge(run, &c, false);
-                        calls.fetch_add(n, Ordering::Relaxed);
+                        n_calls += judge(run, &c, false, &mut out);
                         // non-trivial: the reference defines a digest of a PROPER selection of a non-empty stream
                         if let Expect::Digest { proper_selection: true, .. } = expect(&c, &stream_bytes(l)) {
-                            nontrivial.fetch_add(1, Ordering::Relaxed);
+                            n_nontrivial += 1;
                             if l >= 4 && ranges.len() >= 2 && sampled.fetch_add(1, Ordering::Relaxed) % 9973 == 0 {
                                 run.sample(c.json());
                             }
                         }
                     }
                 }
+            }
+            calls.fetch_add(n_calls, Ordering::Relaxed);
+            nontrivial.fetch_add(n_nontrivial, Ordering::Relaxed);
+            for (k, n) in out {
+                run.outcome_n(k, n);
             }
         });
     }
@@ -466,6 +504,7 @@ fn sweep(run: &Run, sp: &Space) {
     );
     run.evals(calls.load(Ordering::Relaxed));
     run.nontrivial_n(nontrivial.load(Ordering::Relaxed));
+    run.extra(&format!("elapsed_after_{}", sp.name), json!(run.elapsed()));
 }
 
 // ------------------------------------------------------------------------------------------------
@@ -490,6 +529,26 @@ fn sh_channel() -> (SendFn, RecvFn) {
             SYNC_OPS.fetch_add(1, Ordering::Relaxed);
             rx.recv().ok()
         }),
+    )
+}
+
+/// Inline scheduler for the S-inp sweep: a hash worker runs to completion at its spawn point (one of the schedules
+/// S-sched enumerates), channels are plain queues. No OS thread is created, so the sweep is not dominated by
+/// thread creation; the pipeline code itself (chunking, hand-off, hasher moves) is the SDK's.
+fn in_spawn(_name: String, f: Box<dyn FnOnce() + Send + 'static>) -> std::io::Result<()> {
+    f();
+    Ok(())
+}
+
+fn in_channel() -> (SendFn, RecvFn) {
+    let q: Arc<Mutex<std::collections::VecDeque<AnyMsg>>> = Arc::new(Mutex::new(Default::default()));
+    let q2 = q.clone();
+    (
+        Box::new(move |m| {
+            q.lock().unwrap_or_else(|e| e.into_inner()).push_back(m);
+            true
+        }),
+        Box::new(move || q2.lock().unwrap_or_else(|e| e.into_inner()).pop_front()),
     )
 }
 
@@ -597,7 +656,8 @@ fn explore(sc: &SchedCase) -> SchedResult {
 }
 
 fn sched_cases(run: &Run) -> Vec<SchedCase> {
-    let max_l = run.tier.pick(6usize, 7usize);
+    let max_l = run.tier.pick(6usize, 8usize);
+    let max_stages = run.tier.pick(4usize, 5usize);
     let mut shapes: Vec<Case> = vec![];
     for l in 2..=max_l {
         // whole stream; one exclusion in the middle (two hashed runs); a marker splitting the stream; inclusion of an inner run
@@ -612,7 +672,7 @@ fn sched_cases(run: &Run) -> Vec<SchedCase> {
     for c in shapes {
         for buf in 1..=c.l {
             let st = stages(&c, buf);
-            if (2..=4).contains(&st) {
+            if (2..=max_stages).contains(&st) {
                 v.push(SchedCase { c: c.clone(), buf, fail_at: None });
             }
         }
@@ -631,7 +691,7 @@ fn judge_sched(run: &Run, sc: &SchedCase, verbose: bool) -> (u64, u64) {
     if let Some(f) = &r.failure {
         let kind = if f.contains("deadlock") { "deadlock" } else { "panic" };
         run.outcome(format!("sched: {kind}"));
-        run.violation(format!("sched-{kind} {shape} fault={}", sc.fail_at.is_some()), format!("shuttle execution failed after {} schedules: {}", r.executions, f.chars().take(300).collect::<String>()), sc.json());
+        violation(run, format!("sched-{kind} {shape} fault={}", sc.fail_at.is_some()), format!("shuttle execution failed after {} schedules: {}", r.executions, f.chars().take(300).collect::<String>()), sc.json());
         return (r.executions, r.decisions);
     }
     match sc.fail_at {
@@ -642,11 +702,11 @@ fn judge_sched(run: &Run, sc: &SchedCase, verbose: bool) -> (u64, u64) {
             };
             if r.results.len() != 1 {
                 run.outcome("sched: schedule-dependent digest");
-                run.violation(format!("schedule-dependent-digest {shape}"), format!("{} schedules give {} different results: {:?}", r.executions, r.results.len(), r.results.iter().map(|s| s.chars().take(24).collect::<String>()).collect::<Vec<_>>()), sc.json());
+                violation(run, format!("schedule-dependent-digest {shape}"), format!("{} schedules give {} different results: {:?}", r.executions, r.results.len(), r.results.iter().map(|s| s.chars().take(24).collect::<String>()).collect::<Vec<_>>()), sc.json());
             } else if !want.contains(r.results.iter().next().unwrap_or(&String::new())) {
                 // the S-inp part reports wrong digests with their own keys; keep the key distinct here
                 run.outcome("sched: same wrong digest on every schedule");
-                run.violation(format!("sched-wrong-digest {shape}"), format!("all {} schedules give {:?}, reference {:?}", r.executions, r.results, want), sc.json());
+                violation(run, format!("sched-wrong-digest {shape}"), format!("all {} schedules give {:?}, reference {:?}", r.executions, r.results, want), sc.json());
             } else {
                 run.outcome("sched: reference digest on every schedule");
             }
@@ -655,7 +715,7 @@ fn judge_sched(run: &Run, sc: &SchedCase, verbose: bool) -> (u64, u64) {
             let bad: Vec<&String> = r.results.iter().filter(|s| !(s.starts_with("Err(") && kit::streams::is_injected_text(s))).collect();
             if !bad.is_empty() {
                 run.outcome("sched: injected error lost");
-                run.violation(format!("sched-injected-error-lost {shape}"), format!("stream fails (sticky) at call {k}; some of the {} schedules end with {:?}", r.executions, bad.iter().map(|s| s.chars().take(40).collect::<String>()).collect::<Vec<_>>()), sc.json());
+                violation(run, format!("sched-injected-error-lost {shape}"), format!("stream fails (sticky) at call {k}; some of the {} schedules end with {:?}", r.executions, bad.iter().map(|s| s.chars().take(40).collect::<String>()).collect::<Vec<_>>()), sc.json());
             } else {
                 run.outcome("sched: injected error returned on every schedule");
             }
@@ -664,7 +724,7 @@ fn judge_sched(run: &Run, sc: &SchedCase, verbose: bool) -> (u64, u64) {
     (r.executions, r.decisions)
 }
 
-fn sched_phase(run: &Run) {
+fn sched_phase(run: &Run) -> Vec<SchedCase> {
     let hooks = SchedHooks { spawn: sh_spawn, channel: sh_channel };
     let base = sched_cases(run);
     // number of stream calls of the undisturbed run (deterministic: the reader thread alone touches the stream)
@@ -681,7 +741,7 @@ fn sched_phase(run: &Run) {
             cases.push(SchedCase { fail_at: Some(k), ..sc.clone() });
         }
     }
-    run.space("S-sched: (input shape, max_hash_buf giving 2..=4 pipeline stages, no fault | sticky stream error at call k for every k); ALL interleavings of each by shuttle DFS (no iteration bound)", cases.len() as u64, true);
+    run.space("S-sched: (input shape with L in 2..=6 (quick) / 2..=8 (thorough), max_hash_buf giving 2..=4 (quick) / 2..=5 (thorough) pipeline stages, no fault | sticky stream error at call k for every k); ALL interleavings of each by shuttle DFS (no iteration bound)", cases.len() as u64, true);
     sched::install(Some(hooks));
     let (mut execs, mut decs, mut max_sched) = (0u64, 0u64, 0u64);
     let ops0 = SYNC_OPS.load(Ordering::Relaxed);
@@ -702,6 +762,7 @@ fn sched_phase(run: &Run) {
         }
     }
     sched::install(None);
+    par::quiet_panics(); // shuttle installed its own panic hook
     run.states(execs);
     run.transitions(decs);
     run.traces(execs);
@@ -709,8 +770,12 @@ fn sched_phase(run: &Run) {
     run.extra("max_schedules_for_one_input", json!(max_sched));
     run.extra("hooked_spawn_send_recv_operations", json!(SYNC_OPS.load(Ordering::Relaxed) - ops0));
 
-    // free-running pass of the same bodies with real threads (hooks uninstalled): not an enumeration, a sanity pass
-    let reps = run.tier.pick(40u64, 400u64);
+    cases
+}
+
+/// Free-running pass of the S-sched bodies with real threads (hooks uninstalled): not an enumeration, a sanity pass.
+fn free_running(run: &Run, cases: &[SchedCase]) {
+    let reps = run.tier.pick(10u64, 400u64);
     let n = cases.len() as u64 * reps;
     par::for_each_index(n, |i| {
         let sc = &cases[(i % cases.len() as u64) as usize];
@@ -721,7 +786,7 @@ fn sched_phase(run: &Run) {
             _ => false,
         };
         if !ok {
-            run.violation("free-running-pipeline", format!("real threads: {:?}", r.map(|x| x.map(|d| hex(&d[..8])))), sc.json());
+            violation(run, "free-running-pipeline".to_string(), format!("real threads: {:?}", r.map(|x| x.map(|d| hex(&d[..8])))), sc.json());
         }
     });
     run.evals(n);
@@ -740,6 +805,7 @@ pub fn run(run: &Run, replay: Option<&Value>) {
     run.assume("an EMPTY range that starts beyond the end may be rejected or ignored (the property does not say whether it 'reaches past the end')");
     run.assume("shuttle's DfsScheduler enumerates every interleaving at its scheduling points (spawn, channel send/recv, thread exit); SHA-2 updates between those points are thread-local computations");
     run.assume("markers are built as the BMFF hasher builds them: HashRange::new(p,1) + set_bmff_offset(p)");
+    run.assume("the S-inp spaces A/B/C run the pipeline through the scheduler facade with an inline scheduler (each hash worker runs to completion at its spawn point — one of the schedules S-sched enumerates), so that 10^6-10^8 hashing calls are not dominated by OS thread creation; schedule independence is decided by S-sched, and space R plus the free-running pass use real worker threads");
 
     if let Some(v) = replay {
         run.eval();
@@ -752,11 +818,32 @@ pub fn run(run: &Run, replay: Option<&Value>) {
         } else {
             let c = Case::from_json(v);
             println!("replay S-inp case {}", c.json());
-            judge(run, &c, true);
+            let mut out = std::collections::BTreeMap::new();
+            judge(run, &c, true, &mut out);
         }
         return;
     }
 
+    if std::env::var("VERIF_C13_BENCH").is_ok() {
+        sched::install(Some(SchedHooks { spawn: in_spawn, channel: in_channel }));
+        for c in [
+            Case { l: 6, ranges: vec![(2, 1)], markers: vec![4], excl: true, alg: "sha256", none_when_empty: true },
+            Case { l: 6, ranges: vec![(2, 1), (0, u64::MAX)], markers: vec![4], excl: true, alg: "sha256", none_when_empty: true },
+            Case { l: 6, ranges: vec![(2, 1), (0, u64::MAX)], markers: vec![4], excl: false, alg: "sha256", none_when_empty: true },
+        ] {
+            let d = stream_bytes(6);
+            let t = std::time::Instant::now();
+            for _ in 0..20000 { let _ = call_hook(&c, &d, 1); }
+            let t1 = t.elapsed();
+            let t = std::time::Instant::now();
+            let mut out = std::collections::BTreeMap::new();
+            for _ in 0..20000 { judge(run, &c, false, &mut out); }
+            println!("{:?}: hook call {:?}/call, judge {:?}/case; outcomes {:?}", c.ranges, t1 / 20000, t.elapsed() / 20000, out);
+        }
+        sched::install(None);
+        run.eval();
+        return;
+    }
     // own the nondeterminism: one pipelined case twice
     {
         let c = Case { l: 6, ranges: vec![(2, 1)], markers: vec![4], excl: true, alg: "sha256", none_when_empty: true };
@@ -767,28 +854,36 @@ pub fn run(run: &Run, replay: Option<&Value>) {
     }
 
     // S-sched first, single-threaded (the facade hooks are process-wide)
-    sched_phase(run);
+    let sched_inputs = sched_phase(run);
 
     // S-inp
     let q = !run.tier.is_thorough();
     let spaces: Vec<Space> = if q {
         vec![
             Space { name: "A(no markers)", max_l: 8, max_ranges: 2, markers: (0, 0), algs: &["sha256"] },
-            Space { name: "B(markers)", max_l: 6, max_ranges: 2, markers: (1, 2), algs: &["sha256"] },
-            Space { name: "C(other algorithms)", max_l: 4, max_ranges: 2, markers: (0, 2), algs: &["sha384", "sha512"] },
+            Space { name: "B(markers)", max_l: 5, max_ranges: 2, markers: (1, 2), algs: &["sha256"] },
+            Space { name: "C(other algorithms)", max_l: 3, max_ranges: 2, markers: (0, 2), algs: &["sha384", "sha512"] },
         ]
     } else {
         vec![
             Space { name: "A(no markers)", max_l: 12, max_ranges: 2, markers: (0, 0), algs: &["sha256"] },
-            Space { name: "A3(no markers, 3 ranges)", max_l: 7, max_ranges: 3, markers: (0, 0), algs: &["sha256"] },
+            Space { name: "A3(no markers, 3 ranges)", max_l: 10, max_ranges: 3, markers: (0, 0), algs: &["sha256"] },
             Space { name: "B(markers)", max_l: 9, max_ranges: 2, markers: (1, 2), algs: &["sha256"] },
             Space { name: "B3(markers, 3 ranges)", max_l: 5, max_ranges: 3, markers: (1, 2), algs: &["sha256"] },
             Space { name: "C(other algorithms)", max_l: 6, max_ranges: 2, markers: (0, 2), algs: &["sha384", "sha512"] },
         ]
     };
+    run.extra("elapsed_after_sched_phase", json!(run.elapsed()));
+    // S-inp under the inline scheduler (see in_spawn)
+    sched::install(Some(SchedHooks { spawn: in_spawn, channel: in_channel }));
     for sp in &spaces {
         sweep(run, sp);
     }
+    sched::install(None);
+    // real OS threads: a smaller S-inp space and the free-running pass of the S-sched inputs
+    sweep(run, &Space { name: "R(real worker threads)", max_l: run.tier.pick(3, 6), max_ranges: 2, markers: (0, run.tier.pick(0, 1)), algs: &["sha256"] });
+    free_running(run, &sched_inputs);
+    run.extra("elapsed_after_free_running", json!(run.elapsed()));
     // `Some(vec![])` instead of `None`
     for l in 0..=4usize {
         for excl in [true, false] {
@@ -800,8 +895,10 @@ pub fn run(run: &Run, replay: Option<&Value>) {
             let b = call_public(&c, &data, true);
             run.evals(2);
             if a.is_err() || b.is_err() || !same(&a, &b) {
-                run.violation("empty-range-list", format!("Some(vec![]) : {} vs {}", show(&a), show(&b)), c.json());
+                violation(run, "empty-range-list".to_string(), format!("Some(vec![]) : {} vs {}", show(&a), show(&b)), c.json());
             }
         }
     }
+    let counts = SEEN.lock().unwrap_or_else(|e| e.into_inner()).clone();
+    run.extra("violating_cases_by_key", json!(counts));
 }
